@@ -67,6 +67,8 @@ def partial_reoffer_rule(ctx: Ctx, rid: str):
     rem_names = {t.id for n in own_nodes(avail) if isinstance(n, ast.Assign) and isinstance(n.value, ast.Call)
                  and (dotted(n.value.func) or "").endswith("getAvailableSecondsInSlot") for t in n.targets if isinstance(t, ast.Name)}
     slotp = avail.params[1] if len(avail.params) > 1 else "sb_idx"
+    gran_names = {t.id for n in own_nodes(avail) if isinstance(n, (ast.Assign, ast.AnnAssign)) and n.value is not None
+                  and "scheduleGranularity" in norm(n.value) for t in (n.targets if isinstance(n, ast.Assign) else [n.target]) if isinstance(t, ast.Name)}
 
     def lit_ok(t, p):
         tt = t.replace('"', "'")
@@ -78,7 +80,7 @@ def partial_reoffer_rule(ctx: Ctx, rid: str):
         if isinstance(e, ast.Compare) and len(e.ops) == 1:
             tab = order_table(e if p else ast.UnaryOp(op=ast.Not(), operand=e),
                               lambda x: isinstance(x, ast.Name) and x.id in rem_names or "getAvailableSecondsInSlot" in norm(x),
-                              lambda x: "scheduleGranularity" in norm(x))
+                              lambda x: "scheduleGranularity" in norm(x) or (isinstance(x, ast.Name) and x.id in gran_names))
             if tab is not None and tab["<"] is True and tab[">"] is False:
                 return True
         return False
